@@ -4,7 +4,7 @@ from common import *
 import vm_corr, vm_checks, progs
 
 PROP_MODULE = "NeverModel.Props.C14"
-REQUIRED = ["Never.C14.push_in_bounds_or_reported", "Never.C14.mark_in_bounds_partial", "Never.C14.heap_limit_reported"]
+REQUIRED = ["Never.C14.push_in_bounds_or_reported", "Never.C14.mark_in_bounds", "Never.C14.heap_limit_reported"]
 
 def check(tier, seed):
     rep = Report("C14", tier, seed, "proof")
